@@ -18,6 +18,7 @@ import traceback
 
 VERIF = os.path.dirname(os.path.dirname(os.path.abspath(__file__)))
 REPO = os.environ.get("VERIF_REPO", "/repo")
+OUT = os.environ.get("VERIF_OUT", VERIF)  # evidence/ and replays/ go here (scratch runs against mutants use another dir)
 sys.path.insert(0, REPO)
 sys.path.insert(0, VERIF)
 
@@ -63,13 +64,13 @@ def match_known(known, prop, key):
 
 
 def write_replay(prop, name, payload):
-    d = os.path.join(VERIF, "replays")
+    d = os.path.join(OUT, "replays")
     os.makedirs(d, exist_ok=True)
     safe = "".join(ch if ch.isalnum() or ch in "._-" else "_" for ch in name)[:120]
     path = os.path.join(d, f"{prop}-{safe}.json")
     with open(path, "w", encoding="utf-8") as f:
         json.dump(payload, f, indent=1, default=repr)
-    return os.path.relpath(path, VERIF)
+    return os.path.relpath(path, OUT)
 
 
 def deductive(prop, tier, seed, reg, out):
@@ -299,8 +300,8 @@ def run_property(prop, tier, seed):
     ev = {"property_id": prop, "tier": tier, "seed": seed, "level": level, "coverage": cov,
           "assumptions": assumptions, "wall_s": round(time.time() - t_start, 2),
           "violations": len(violations)}
-    os.makedirs(os.path.join(VERIF, "evidence"), exist_ok=True)
-    with open(os.path.join(VERIF, "evidence", f"{prop}.json"), "w", encoding="utf-8") as f:
+    os.makedirs(os.path.join(OUT, "evidence"), exist_ok=True)
+    with open(os.path.join(OUT, "evidence", f"{prop}.json"), "w", encoding="utf-8") as f:
         json.dump(ev, f, indent=1, default=repr)
     print(f"SUMMARY property={prop} tier={tier} obligations={n_ob} discharged={discharged} "
           f"undecided={len(undecided)} bounded_evals={bounded['evaluations']} "
